@@ -74,6 +74,7 @@ class AppLog:
         self.busy = 0                    # handlers currently running (incl. their delay)
         self.delay = {}                  # event -> virtual seconds the handler takes (it logs
                                          # the event first, then sleeps: other causes may race)
+        self.farewell = False            # the disconnect handler sends a last message itself
         self.react = None                # optional callback(event, sid, data) -> actions the
                                          # handler itself performs: ('send', payload, rec) |
                                          # ('disconnect', rec); rec is a HandlerCall
@@ -183,7 +184,10 @@ class AppLog:
             async def _disc(sid, reason):
                 self.busy += 1
                 try:
-                    return self._disconnect(sid, reason)
+                    r = self._disconnect(sid, reason)
+                    if self.farewell:
+                        await react(sid, self._reactions('disconnect', sid, reason))
+                    return r
                 finally:
                     try:
                         if self.delay.get('disconnect'):
@@ -239,6 +243,12 @@ class AppLog:
                 finally:
                     self.busy -= 1
 
+            def _disc_sync(sid, reason):
+                r = self._disconnect(sid, reason)
+                if self.farewell:
+                    react(sid, self._reactions('disconnect', sid, reason))
+                return r
+
             def message(sid, data):
                 try:
                     r = self._message(sid, data)
@@ -250,7 +260,7 @@ class AppLog:
             if legacy_disconnect == 'varargs':
                 def disconnect(*args):               # a handler written with a lone *args
                     try:
-                        return self._disconnect(args[0], args[1] if len(args) > 1 else None)
+                        return _disc_sync(args[0], args[1] if len(args) > 1 else None)
                     except TypeError as e:
                         raise ValueError(str(e))     # (see the coroutine form above)
                     finally:
@@ -258,13 +268,13 @@ class AppLog:
             elif legacy_disconnect:
                 def disconnect(sid):
                     try:
-                        return self._disconnect(sid, None)
+                        return _disc_sync(sid, None)
                     finally:
                         nap('disconnect')
             else:
                 def disconnect(sid, reason):
                     try:
-                        return self._disconnect(sid, reason)
+                        return _disc_sync(sid, reason)
                     finally:
                         nap('disconnect')
         # handlers need not be plain functions: functools.partial objects and (for synchronous
@@ -291,7 +301,7 @@ class AWorld:
 
     def __init__(self, config=None, coroutine_handlers=True, app_kwargs=None, raise_after_close=True,
                  legacy_disconnect=False, clock=None, loop=None, handler_delay=None,
-                 preempt=False, timer_jitter=0.0, handler_style=None):      # (preempt: threaded world only)
+                 preempt=False, timer_jitter=0.0, handler_style=None, farewell=False):
         import engineio
         self.clock = clock or vclock.reset()
         vclock.patch_engineio_time()
@@ -304,6 +314,7 @@ class AWorld:
         self.server = engineio.AsyncServer(async_mode='asgi', **cfg)
         self.app_log = AppLog(self)
         self.app_log.delay = dict(handler_delay or {})
+        self.app_log.farewell = bool(farewell)
         self.app_log.install(self.server, coroutine_handlers, legacy_disconnect, style=handler_style)
         self.app = engineio.ASGIApp(self.server, **(app_kwargs or {}))
         self.raise_after_close = raise_after_close
@@ -337,6 +348,9 @@ class AWorld:
         if declared is None and (body or method == 'POST'):
             declared = len(body)
         hdrs = list(headers)
+        undeclared = declared == 'absent'       # a body sent without Content-Length (chunked)
+        if undeclared:
+            declared = None
         if declared is not None:
             hdrs.append(('Content-Length', str(declared)))
         req = Req(self, method, path, query, hdrs, body, declared)
